@@ -175,4 +175,32 @@ theorem maskRead_nonOwner_win (c : CryptoOps) (kvW kvR : KeyView) (cfg : MaskCfg
   rw [c01_serBytes_length] at hplen
   exact maskRead_other_win c kvR cfg _ e hpat hw he (by omega) hfail hpc
 
+/-! ### a false container header inside the bytes in front of the real container -/
+
+/-- What the masked read does when a position in front of the real container DOES decode as a container
+start (`C` = the bytes the false header declares, `suf` = everything after them, the real container's
+remains included): nobody can open `C ++ suf`, so the masking callback answers with the pattern, the
+scan advances by the DECLARED length `|C|` and goes on in `suf`. If the scan passes over `suf` (because
+the real container's header has been stepped over), `suf` is handed to the reader as it is. -/
+theorem maskRead_false_header (c : CryptoOps) (kv : KeyView) (cfg : MaskCfg) (pre C suf : Bytes)
+    (hpat : cfg.pattern ≠ [])
+    (hpre : windowOk pre (C ++ suf) = true)
+    (hC : C ≠ []) (htag : startsWith containerTag (C ++ suf) = true)
+    (hx : extractContainer (C ++ suf) = .ok ((C.length : Int), C ++ suf))
+    (hproc : ∀ m, process c kv (C ++ suf) ≠ .ok m) (hne : cfg.pattern ≠ C ++ suf)
+    (hsuf : windowOk suf [] = true) (hlen : 12 ≤ (pre ++ C ++ suf).length) :
+    maskRead c kv cfg (pre ++ C ++ suf) = .ok (pre ++ cfg.pattern ++ suf) true := by
+  have hrun : runCallbacks (C ++ suf) [fun _ => Cb.same, maskCallback c kv cfg.pattern] = .replace cfg.pattern := by
+    simp [runCallbacks, maskCallback_other hproc hne]
+  have hCpos : 0 < C.length := List.length_pos_iff.mpr hC
+  have hproc' : procAt [fun _ => Cb.same, maskCallback c kv cfg.pattern] (C ++ suf) cfg.pattern C.length :=
+    ⟨htag, _, _, hx, hrun, by omega, by rw [List.length_append]; omega, by simp⟩
+  have hskip := windowOk_skip [fun _ => Cb.same, maskCallback c kv cfg.pattern] hpre
+  rw [← List.append_assoc] at hskip
+  have hscan := c01_onColumn_scan [fun _ => Cb.same, maskCallback c kv cfg.pattern] _ (by simp) (by show 12 ≤ _; exact hlen)
+  rw [c01_scan_embedded _ pre C suf cfg.pattern hskip hC (c01_headStep_of_procAt hproc'), scan_windowOk _ suf hsuf] at hscan
+  unfold maskRead
+  rw [if_neg hpat, onColumnCompat_eq, hscan]
+  simp [ScanOut.prepend]
+
 end AcraModel.Envelope
